@@ -104,7 +104,7 @@ const STYLES: [CallStyle; 4] = [CallStyle::Paren, CallStyle::Prime, CallStyle::A
 pub fn run(run: &mut Run) {
     let thorough = run.thorough();
     let bases = base_programs(thorough);
-    let ksites = if thorough { 5 } else { 3 };
+    let ksites = if thorough { 4 } else { 3 };
     let accs = crate::pool::par_items(&bases, 4, |_| Stats::new(), |acc, bi, (fam, base)| {
         let mut base = base.clone();
         number_unreachables(&mut base);
